@@ -133,6 +133,10 @@ def run(res, tier):
         res.rule("NRM-2", "right shifts: the number of carry-chain steps equals size(operand) + steps for every operand size, result size and shift (piecewise-linear identity over the loop trip counts)")
         nn2 = nrm2(p, res)
         res.floor("NRM-2", "right-shift shape functions", nn2, 3)
+        from .c11 import nrm3
+        res.rule("NRM-3", "same-radix normalisation with a signed offset: the number of carry-chain steps equals max(size(operand) - limb_offset, 0) for every operand size, result size and offset")
+        nn3 = nrm3(p, res)
+        res.floor("NRM-3", "same-radix offset normalisations", nn3, 3)
         from .c11 import wr6
         res.rule("WR-6", "carry buffers of the shift / normalisation shape functions are written before a middle / final step reads them on every feasible path (zero-trip loops, single-limb cases)")
         n6 = wr6(p, res)
